@@ -145,6 +145,16 @@ func handleCCR() diam.HandlerFunc {
 			return
 		}
 
+		// every answer identifies the request it answers
+		cca = charging_datatype.AccountDebitResponse{
+			SessionId:       ccr.SessionId,
+			OriginHost:      ccr.DestinationHost,
+			OriginRealm:     ccr.DestinationRealm,
+			CcRequestType:   ccr.CcRequestType,
+			CcRequestNumber: ccr.CcRequestNumber,
+			EventTimestamp:  datatype.Time(time.Now()),
+		}
+
 		switch ccr.RequestedAction {
 		case charging_datatype.CHECK_BALANCE:
 			logger.AcctLog.Errorf("CHECK_BALANCE not supported")
